@@ -144,6 +144,10 @@ func assignedIn(n ast.Node, out map[string]bool) {
 			if id, ok := m.X.(*ast.Ident); ok {
 				out[id.Name] = true
 			}
+		case *ast.UnaryExpr:
+			if id, ok := m.X.(*ast.Ident); ok && ioAddrAssigned && m.Op == token.AND {
+				out[id.Name] = true // ext_io.go: `&v` handed to a call inside the loop (an out parameter)
+			}
 		case *ast.FuncLit:
 			return false
 		}
